@@ -83,6 +83,11 @@ func main() {
 			res.Add("accepted", 1)
 			res.Distinct(strings.ToUpper(s))
 		}
+		// the answer must not depend on earlier calls: ask again
+		got2, err2 := config.StringToNote(s)
+		if (err == nil) != (err2 == nil) || got != got2 {
+			res.Violate("answer-changes-on-repetition", classOf(s), fmt.Sprintf("StringToNote(%q) returned (%d, %v) the first time and (%d, %v) the second time", s, got, err, got2, err2), map[string]interface{}{"input": s})
+		}
 	}
 
 	// (1) numbers -> names -> numbers
